@@ -94,6 +94,20 @@ class Body:
                 if s not in seen and s not in avoid: st.append(s)
         return seen
 
+    def rpo(self):
+        """reverse post-order index of every reachable block (a topological order of the CFG
+        without its back edges: sequential program order)"""
+        succ = self.succ(); seen = set(); post = []
+        stack = [(0, iter(succ[0]))]; seen.add(0)
+        while stack:
+            b, it = stack[-1]
+            for s in it:
+                if s not in seen and not self.blocks[s]["cleanup"]:
+                    seen.add(s); stack.append((s, iter(succ[s]))); break
+            else:
+                post.append(b); stack.pop()
+        return {b: i for i, b in enumerate(reversed(post))}
+
     def return_blocks(self):
         return [i for i, b in enumerate(self.blocks) if b["term"]["k"] == "return"]
 
